@@ -1,6 +1,7 @@
 CONSTANTS
   Files <- F1
   NewFile = "f3"
+  SubFile = "g1"
   TempT = "tt"
   Keys <- K1
   Vals <- V5
@@ -8,7 +9,7 @@ CONSTANTS
   Script = FALSE
   WithEnv = TRUE
 INIT Init
-NEXT Next
+NEXT NextQ
 VIEW ViewNoOut
 CONSTRAINT Depth5
 INVARIANTS DirtyLoaded EncHeld
